@@ -122,13 +122,6 @@ where
         Err(Error::EdgeNotFound)
     }
 
-    pub fn remove_undirected(&mut self, node: &K) -> Result<E, Error> {
-        match self.remove_inbound(node) {
-            Ok(edge) => Ok(edge),
-            Err(_) => self.remove_outbound(node),
-        }
-    }
-
     pub fn clear_inbound(&mut self) {
         self.inbound.clear();
     }
